@@ -66,7 +66,7 @@ def run(ctx) -> None:
         if windowed:
             if n >= 2:
                 i, j = sorted(rng.sample(range(n), 2))
-                period = (t[j] - t[i]) + rng.choice([0, 0, 0, 1, -1])
+                period = (t[j] - t[i]) + rng.choice([0, 0, 0, 1, -1, 0.5, -0.5, 0.25])
                 if period <= 0:
                     period = t[j] - t[i]
                 if period == t[j] - t[i]:
@@ -117,6 +117,36 @@ def run(ctx) -> None:
                  f"n{gen.nclass(n)}|{'f>s' if ft > st else 'f<=s'}|{fs}", trivial=fs == "1",
                  sample={"x": x, "t": t, "suspect_threshold": st, "fail_threshold": ft, "test_period": period,
                          "min_obs": min_obs, "min_period": min_period, "check_type": kind, "observed": o.brief()})
+    # history: the sampling step belongs to the axis of THIS call (regular axis, then a burst-sampled axis with one
+    # outage that has the same length and the same first and last instant, and the other way round)
+    for _ in range(ctx.pick(60, 400)):
+        n = rng.choice([7, 9, 11, 13])
+        D = rng.choice([10, 20, 60])
+        ta = gen.regular(n, D)
+        d = rng.choice([1, 2])
+        tb, cur = [], ta[0]
+        for k in range(n):
+            tb.append(cur)
+            cur += d
+        tb[-1] = ta[-1]  # one outage before the last sample: same ends, same length, sampling step d
+        xs = gen.series(rng, n, pmiss=0.1)
+        kind = rng.choice(["std", "range"])
+        mp = rng.choice([2 * D, 3 * D, 25])
+        per = rng.choice([4 * D, 6 * D])
+        pair = [(ta, "regular"), (tb, "burst+outage")]
+        if rng.random() < 0.5:
+            pair.reverse()
+        for tt, axis in pair:
+            kw = {"inp": gen.arr(xs), "tinp": gen.times(tt), "suspect_threshold": 1.0, "fail_threshold": 0.25,
+                  "test_period": per, "min_period": mp, "check_type": kind}
+            client.expect(ctx, "C12", "qartod.attenuated_signal_test", kw,
+                          lambda: models.attenuated(xs, tt, 1.0, 0.25, per, None, mp, kind),
+                          logical={"x": xs, "t": tt, "test_period": per, "min_period": mp, "check_type": kind, "axis": axis,
+                                   "note": "second of two calls on axes with equal length and end points" if tt is pair[1][0] else "first call"},
+                          hist=f"attenuated.{kind}")
+            ctx.count("attenuated.calls")
+            ctx.count("attenuated.sampling_step_history_calls")
+            ctx.case(f"history|{kind}|{axis}|{'second' if tt is pair[1][0] else 'first'}")
     if ctx.shard == 0:
         for bad in ("STD", "stdev", "", "ptp", None, 1):
             kw = {"inp": gen.arr([1.0, 2.0, 3.0]), "tinp": gen.times(gen.regular(3, 60)), "suspect_threshold": 1,
